@@ -32,14 +32,16 @@ ModelVerdict(toks, intact) ==
   IN IF Len(r.errs) = 0 THEN "accepts"
      ELSE IF r.errs[1].at >= intact THEN "rejects" ELSE "rejects_too_early"
 
-One(kind, f, sep) ==
-  LET toks == Layout(f.toks, sep, {})
+OneB(kind, f, sep, brk) ==
+  LET toks == Layout(f.toks, sep, brk)
       \* indices shift when sep = 2 drops the opt semicolons in front of the intact token
       dropped == IF sep = 2 THEN Cardinality({j \in 1..f.intact : f.toks[j].opt}) ELSE 0
       intact == f.intact - dropped
       cut == IF f.cut = 0 THEN 0 ELSE f.cut - (IF sep = 2 THEN Cardinality({j \in 1..f.cut : f.toks[j].opt}) ELSE 0)
       mv == IF f.cut = 0 THEN ModelVerdict(toks, intact) ELSE "n/a"
   IN [kind |-> kind, intact |-> intact, cut |-> cut, model |-> mv, toks |-> Slim(toks)]
+
+One(kind, f, sep) == OneB(kind, f, sep, {})
 
 \* `return` outside a function is not JavaScript: such statement lists are used as function bodies only
 RECURSIVE HasReturn(_)
@@ -57,5 +59,9 @@ Inv == \A p \in Programs :
                              \cup (IF sep = 1 THEN {One("fuse", f, sep) : f \in fs.fuse} ELSE {})
                              \cup {One("trunc", f, sep) : f \in fs.trunc}
                              \cup {One("lit", f, sep) : f \in fs.lit}
-                  IN Export => PrintT(ToJson([orig |-> Slim(Layout(ts, sep, {})), faults |-> SetToSeq(all)]))
+                      hasFor == \E j \in 1..Len(ts) : ts[j].ty = "FOR"
+                      \* headers spread over several lines: a line break in every gap
+                      spread == IF hasFor /\ sep = 1 THEN {OneB("del", f, 1, 1..Len(ts)) : f \in fs.del} ELSE {}
+                  IN /\ (Export => PrintT(ToJson([orig |-> Slim(Layout(ts, sep, {})), faults |-> SetToSeq(all)])))
+                     /\ ((Export /\ spread # {}) => PrintT(ToJson([orig |-> Slim(Layout(ts, 1, 1..Len(ts))), faults |-> SetToSeq(spread)])))
 =============================================================================
